@@ -105,13 +105,34 @@ def random_chain(rng):
     return out
 
 
+def random_ring(rng):
+    """random (hetero)aromatic 5- or 6-ring with 0-2 substituents / fused benzene; validity is decided by RDKit"""
+    if rng.random() < 0.5:
+        ring = ["c"] * 6
+        for i in rng.sample(range(6), rng.choice([0, 1, 1, 2, 3])):
+            ring[i] = "n"
+    else:
+        ring = [rng.choice(["[nH]", "o", "s"])] + ["c"] * 4
+        for i in rng.sample(range(1, 5), rng.choice([0, 0, 1, 2])):
+            ring[i] = "n"
+    subs = ["", "", "", "C", "F", "Cl", "O", "N", "C#N", "C=O", "C=C", "S(C)(=O)=O", "OC"]
+    out = ""
+    for i, a in enumerate(ring):
+        out += a + ("1" if i == 0 else "")
+        if a == "c" and rng.random() < 0.3:
+            sb = rng.choice(subs)
+            if sb:
+                out += f"({sb})"
+    return out + "1"
+
+
 def gen_cases(ctx):
     rng = ctx.rng
     n = ctx.n(9600, 120000)
     for i in range(n):
         k = i % 6
         if k == 4:
-            smi = random_chain(rng)
+            smi = random_chain(rng) if (i // 6) % 2 == 0 else random_ring(rng)
             if smi:
                 yield {"kind": "chemical", "smiles": smi, "oseed": rng.randrange(1 << 30), "n_orders": 6 if ctx.tier == "quick" else 16, "source": "random-chain"}
                 continue
